@@ -50,12 +50,12 @@ def gen_cases(rng, tier):
                 dtwgen.derived(case)
         cases.append(case)
     # short series with large relaxations: the neighbours of a marked corner are border cells
-    m = 600 if tier == "quick" else 6000
+    m = 1000 if tier == "quick" else 8000
     for k in range(m):
         short = 1 if k % 3 else 2
         long_ = rng.randint(1, 5)
         r, c = (short, long_) if k % 2 else (long_, short)
-        case = {"site": ("py.warping_path", "c.warping_path", "c.best_path_compact", "py.warping_path")[k % 4],
+        case = {"site": ("py.warping_path", "c.warping_path", "c.best_path_compact", "py.best_path_on_c", "py.warping_path")[k % 5],
                 "ndim": 1, "s1": dtwgen.rand_series(rng, r, 1),
                 "s2": dtwgen.rand_series(rng, c, 1),
                 "settings": dtwgen.rand_settings(rng, r, c, allow_psi=False, allow_mld=False, allow_max_step=False)}
